@@ -14,7 +14,7 @@ func init() {
 	registry["C04"] = func() []*seqmc.Spec {
 		keys := 5
 		if thorough {
-			keys = 6
+			keys = 7
 		}
 		mk := func(name string, less func(a, b int) bool) *seqmc.Spec {
 			return &seqmc.Spec{Property: "C04", Component: name, Inits: []string{"empty"}, New: func(string) seqmc.Sys {
